@@ -387,7 +387,18 @@ def _cluster_case(case):
     G = len(sizes)
     zz = np.indices(shape).astype(float)
     cen = [rng.uniform(1.5, S - 2.5, 3) for _ in range(G)]
+    tries = 0
     while min(np.linalg.norm(cen[i] - cen[j]) for i in range(G) for j in range(i + 1, G)) < 2.2:
+        tries += 1
+        if tries > 500:
+            # four centres 2.2 apart hardly ever come up by rejection in the 2-voxel cube of a 6-voxel box (seed 32
+            # spun here for 15 minutes): place them on alternating corners of the allowed cube (edge * sqrt 2 apart)
+            lo, hi = 1.5, S - 2.5
+            flip = int(rng.integers(0, 2))
+            corners = [np.array([hi if (b >> a) & 1 else lo for a in range(3)], float)
+                       for b in range(8) if bin(b).count("1") % 2 == flip]
+            cen = [corners[i] for i in rng.permutation(4)[:G]]
+            break
         cen = [rng.uniform(1.5, S - 2.5, 3) for _ in range(G)]
     tm = np.stack([np.exp(-((zz - c[:, None, None, None]) ** 2).sum(0) / (2 * 1.2 ** 2)) for c in cen])
     truth = np.repeat(np.arange(G), sizes)
